@@ -368,7 +368,7 @@ class PGWorld(World):
                     raise Violation("dual_not_in_callers_array", site + ".update", step, {"k": kk})
                 xk = x_caller.ravel().astype(np.complex128)
                 uk = u_caller.ravel().astype(np.complex128)
-                if not (np.all(np.isfinite(xk.view(float))) and np.all(np.isfinite(uk.view(float)))):
+                if not (np.all(np.isfinite(xk)) and np.all(np.isfinite(uk))):
                     raise Violation("nonfinite_iterate", site + ".update", step, {"k": kk})
                 if k["start"] == "exact":
                     dev = float(np.linalg.norm(xk - xs.ravel()) + np.linalg.norm(uk - us.ravel()))
